@@ -176,7 +176,28 @@ pub fn g_macro() -> BoxedStrategy<(Vec<u8>, &'static str)> {
         .prop_map(|(k, six, body, extra)| {
             let head = if six { HEAD06 } else { HEAD05 };
             let mut v = Vec::new();
-            let stratum = match pick(k, 8) {
+            let stratum = match pick(k, 10) {
+                8 => {
+                    // an envelope whose body starts with the (other or same) header again
+                    v.extend_from_slice(head);
+                    v.extend_from_slice(if extra & 1 == 0 { HEAD06 } else { HEAD05 });
+                    if extra & 2 == 0 {
+                        v.extend_from_slice(&body);
+                    }
+                    if extra & 4 == 0 {
+                        v.extend_from_slice(TRAIL);
+                    }
+                    v.extend_from_slice(TRAIL);
+                    "macro-nested-head"
+                }
+                9 => {
+                    // header with another format digit (00..09 except the two macro formats)
+                    v.extend_from_slice(head);
+                    v[5] = b"0123478999"[(extra % 10) as usize];
+                    v.extend_from_slice(&body);
+                    v.extend_from_slice(TRAIL);
+                    "macro-other-format"
+                }
                 0 => {
                     v.extend_from_slice(head);
                     v.extend_from_slice(&body);
